@@ -57,7 +57,7 @@ func parseLines(stdout string) map[int]string {
 	return m
 }
 
-func canonLine(rest string) string {
+func canonLine(rest string, seq bool) string {
 	a, b, ok := strings.Cut(rest, "\t")
 	if !ok {
 		return rest
@@ -66,6 +66,9 @@ func canonLine(rest string) string {
 		return "THROW " + b
 	}
 	ca, _ := canonJSON(a)
+	if seq {
+		ca = canonSeqField(a)
+	}
 	cb, _ := canonJSON(b)
 	return ca + "\t" + cb
 }
@@ -100,7 +103,7 @@ func runBatch(e *lib.Env, cases []*Case, ids []int, res []outcome) {
 		firstMissing := -1
 		for k, id := range ids {
 			if rest, ok := lines[id]; ok {
-				res[id] = outcome{got: canonLine(rest), ok: true}
+				res[id] = outcome{got: canonLine(rest, len(cases[id].Steps) > 0), ok: true}
 			} else if firstMissing < 0 {
 				firstMissing = k
 			}
@@ -155,7 +158,9 @@ func main() {
 	full := !e.Quick()
 	g.enumerateArrays(full)
 	g.enumerateStrings()
+	g.enumerateSequences(full)
 	enumerated := len(g.cases)
+	g.seededSequences(e.Rand("sequences"), e.Pick(3000, 150000))
 	g.seededArrays(e.Rand("arrays"), e.Pick(300, 6000))
 	g.seededStrings(e.Rand("strings"), e.Pick(300, 6000))
 	cases := g.cases
@@ -225,7 +230,7 @@ func main() {
 		}
 		got := ""
 		if rest, ok := parseLines(alone.Stdout)[0]; ok {
-			got = canonLine(rest)
+			got = canonLine(rest, len(c.Steps) > 0)
 		} else if crash, cls := lib.GoCrash(alone); crash {
 			got = "DIED go crash " + cls + " at " + lib.PanicSite(alone.Stderr)
 		} else {
